@@ -298,6 +298,8 @@ def _gen_ops(rng, names, tier):
 def generate(prop, rng, index, tier):
     if prop == "C14":
         return _generate_cyclic(rng, index, tier)
+    if index % 8 == 7:
+        return _generate_eems(rng, index, tier)
     nmax = 12 if tier == "quick" else 40
     family = FAMILIES[index % len(FAMILIES)] if rng.random() < 0.7 else rng.choice(FAMILIES)
     if family == "tiny":
@@ -398,6 +400,109 @@ def _generate_cyclic(rng, index, tier):
     }
     sc["layout"]["eol"] = "\n"
     return normalize(sc)
+
+
+def _generate_eems(rng, index, tier):
+    """Second flavour: real EEMS commands (pull order fixed by the library code) on SimFS data."""
+    from .. import modelgen
+    from . import modelsim
+    from ..refmodel import eems as ref
+    model = modelgen.gen_model(rng, tier, ints=False, missing=rng.random() < 0.3)
+    modelgen.add_sinks(rng, model, write=rng.random() < 0.5, printvars=rng.random() < 0.5, print_to_file=True)
+    env = ref.run_model(model["table"], model["cmds"])
+    sched = modelsim._gen_schedule(rng, model, env, rng.choice(["topo", "reverse", "random", "random"]), allow_v2=False)
+    sched["extras"] = []
+    sched["order"] = [i for i in sched["order"] if i < len(model["cmds"])]
+    names = [c["name"] for c in model["cmds"]]
+    hist = []
+    for _ in range(rng.randint(1, 6)):
+        r = rng.random()
+        hist.append(["RUN"] if r < 0.4 else ["GET", rng.choice(names)] if r < 0.75 else ["CRUN", rng.choice(names)])
+    if not any(op[0] == "RUN" for op in hist):
+        hist.insert(rng.randrange(len(hist) + 1), ["RUN"])
+    sched["history"] = hist
+    sched["layout"]["eol"] = "\n"
+    return {"engine": ENGINE, "prop": "C01", "config": "eems", "family": "eems-model", "model": model, "sched": sched,
+            "nodes": [], "ops": hist, "faults": []}
+
+
+def _execute_eems(sc):
+    """Exactly-once / nothing-after-completion invariants on real EEMS commands."""
+    from mpilot.program import Program
+    from .. import modelgen
+    from ..render import render as rend
+    from ..simfs import SimFS
+    from ..seams import StdCapture
+    from ..refmodel import eems as ref
+    from . import modelsim
+
+    res = RunResult()
+    model, sched = sc["model"], sc["sched"]
+    cmds = model["cmds"]
+    log = EventLog(cap=400 * (len(cmds) + 8) + 1000)
+    res.log = log
+    log.emit("scenario", prop="C01", config="eems", n=len(cmds))
+    try:
+        ref.run_model(model["table"], cmds)
+    except (ref.Precondition, KeyError):
+        res.observe("scenario outside the documented domain")
+        return res
+    nodes = modelsim.program_nodes(cmds, sched.get("order"), sched.get("argseed", 0), (), sched.get("meta"))
+    text, _ = rend(nodes, sched.get("layout") or PLAIN)
+    fs = SimFS(log, res, files={model["table"]["path"]: modelgen.csv_text(model["table"])}, dirs=[modelgen.WORK])
+    deps = {c["name"]: list(dict.fromkeys(ref.refs_of(c))) for c in cmds}
+    names = [c["name"] for c in cmds]
+    reported = set()
+
+    def on_enter(inst, key):
+        if mon.counts[key] > 1 and key not in reported:
+            reported.add(key)
+            res.violate("C01.I1", "C01.I1 executed-more-than-once",
+                        "%s (%s) entered %d times" % (key, type(inst).__name__, mon.counts[key]))
+
+    mon = ExecMonitor(log, on_enter=on_enter, nesting_cap=len(cmds) + 3)
+    with Hygiene(), fs, StdCapture(log):
+        try:
+            program = Program.from_source(text, working_dir=model.get("working_dir", modelgen.WORK))
+            mon.install(list(program.command_library.values()))
+            complete = False
+            for op in sc["ops"]:
+                before = sum(mon.counts.values())
+                log.emit("op-begin", op=op)
+                if op[0] == "RUN":
+                    program.run()
+                elif op[0] == "GET":
+                    program.commands[op[1]].result
+                elif op[0] == "CRUN":
+                    program.commands[op[1]].run()
+                added = sum(mon.counts.values()) - before
+                log.emit("op-end", op=op, added=added)
+                if complete and added:
+                    res.violate("C01.I5", "C01.I5 executes-after-completion",
+                                "%r executed %d commands after the program had completed" % (op, added))
+                if op[0] in ("GET", "CRUN"):
+                    bad = sorted(x for x in closure(deps, op[1]) if mon.counts.get(x, 0) != 1)
+                    if bad:
+                        res.violate("C01.I4", "C01.I4 pull-left-dependencies-unexecuted",
+                                    "after %r these commands had not executed exactly once: %r" % (op, bad))
+                if op[0] == "RUN":
+                    bad = sorted(x for x in names if mon.counts.get(x, 0) != 1)
+                    if bad:
+                        res.violate("C01.I4", "C01.I4 run-incomplete",
+                                    "after run() these commands had not executed exactly once: %r" % (bad,))
+                    complete = not bad
+            res.probe("real EEMS commands flavour")
+        except SimAbort:
+            res.violate("C01.I1", "C01.runaway unbounded-nesting", "execute nesting exceeded the number of commands")
+        except Exception as exc:  # noqa
+            res.observe("model run raised %s (C02's business)" % type(exc).__name__)
+        finally:
+            mon.uninstall()
+    order = [ev[1]["cmd"] for ev in log.events if ev[0] == "exec-enter"]
+    res.schedule_key = h64(["eems", order])
+    res.case_key = h64([cmds, sc["ops"], sched.get("order")])
+    res.nontrivial = len(cmds) >= 2
+    return res
 
 
 def has_cycle(sc):
@@ -535,6 +640,8 @@ def _api_value(v, program, objects):
 
 
 def execute(sc):
+    if sc.get("config") == "eems":
+        return _execute_eems(sc)
     import mpsim_probe as probe
     from mpilot.program import Program
     from mpilot.exceptions import MPilotError, RecursiveModelStructure
@@ -755,6 +862,31 @@ def shrink_candidates(sc):
     def clone():
         return copy.deepcopy(sc)
 
+    if sc.get("config") == "eems":
+        from ..refmodel import eems as ref
+        if len(sc["ops"]) > 1:
+            for i in range(len(sc["ops"])):
+                c = clone()
+                del c["ops"][i]
+                c["sched"]["history"] = c["ops"]
+                yield c
+        cmds = sc["model"]["cmds"]
+        used = set()
+        for cm in cmds:
+            used.update(ref.refs_of(cm))
+        opnames = {op[1] for op in sc["ops"] if len(op) > 1}
+        for i in reversed(range(len(cmds))):
+            if cmds[i]["name"] in used or cmds[i]["name"] in opnames or len(cmds) <= 1:
+                continue
+            c = clone()
+            del c["model"]["cmds"][i]
+            c["sched"]["order"] = [j - (1 if j > i else 0) for j in c["sched"]["order"] if j != i]
+            yield c
+        if sc["sched"].get("layout") != PLAIN:
+            c = clone()
+            c["sched"]["layout"] = dict(PLAIN)
+            yield c
+        return
     cyc = sc["config"] == "cyclic"
     # drop operations
     if len(sc["ops"]) > 1:
@@ -843,6 +975,9 @@ def shrink_candidates(sc):
 
 
 def sample(sc):
+    if sc.get("config") == "eems":
+        return {"family": "eems-model", "commands": [[c["name"], c["cmd"]] for c in sc["model"]["cmds"]],
+                "file_order": sc["sched"].get("order"), "history": sc["ops"]}
     return {
         "family": sc.get("family"), "config": sc["config"],
         "commands_in_file_order": [[n["name"], n["cls"], n["args"], {"pull_plan": n["plan"]}] for n in sc["nodes"]],
@@ -863,8 +998,17 @@ RULES = {
 }
 
 COMPONENTS = {
-    "real": ["mpilot.program.Program (from_source, add_command, run)", "mpilot.commands.Command (run, result, metadata)",
+    "real": ["every 8th C01 run: real EEMS commands (csv, basic, fuzzy libraries) on SimFS",
+             "mpilot.program.Program (from_source, add_command, run)", "mpilot.commands.Command (run, result, metadata)",
              "mpilot.params (ResultParameter, ListParameter, TupleParameter cleaning)", "mpilot.parser (PLY lexer/parser)",
              "mpilot.utils.flatten", "library loading through libraries=('mpsim_probe',)"],
     "stub": ["execute() bodies of the probe commands (pull plan and tokens supplied by the simulator)"],
 }
+
+
+def worker_init(scratch):
+    from mpilot.program import Program
+    Program()
+
+
+STATE_MEASURE = {'C01': 'abstract state = (graph in file order, set of finished commands, execute stack) sampled at every execute entry and after every client operation; schedule = (graph, order of execute entries)', 'C14': 'abstract state = (graph in file order, set of finished commands, execute stack) at every execute entry; schedule = (graph, order of execute entries)'}
